@@ -68,10 +68,10 @@ let parse_args (toks : string list) : z list =
       List.init n (fun i -> z_of_int (16 * hexval t.[1 + 2*i] + hexval t.[2 + 2*i]))
     end else [z_of_string t]) toks
 
-let runner (stream : string) : (string list -> (n * z list) list -> z list list) =
-  match stream with
-  | "rcvbuf" -> (fun _ ops -> run_rcvbuf ops)
-  | _ -> failwith ("unknown stream " ^ stream)
+(* Streams.table is generated from streams/*.json by tools/vlib.py *)
+let runner (stream : string) : (z list -> (n * z list) list -> z list list) =
+  try List.assoc stream Streams.table
+  with Not_found -> failwith ("unknown stream " ^ stream)
 
 let () =
   let stream = Sys.argv.(1) in
@@ -86,7 +86,7 @@ let () =
       else if String.length line >= 4 && String.sub line 0 4 = "CASE" then begin
         let words = split_ws (String.sub line 4 (String.length line - 4)) in
         Buffer.add_string buf ("CASE " ^ (match words with w :: _ -> w | [] -> "") ^ "\n");
-        cfg := (match words with _ :: r -> r | [] -> []);
+        cfg := (match words with _ :: r -> parse_args r | [] -> []);
         ops := []
       end else if line = "END" then begin
         let obs = run !cfg (List.rev !ops) in
